@@ -128,6 +128,14 @@ class LV:
         self.box[self.key] = v
 
 
+class PtrLV:
+    """pointer to one scalar cell (the address of a local: `&rangeKey`)"""
+    __slots__ = ('lv',)
+
+    def __init__(self, lv):
+        self.lv = lv
+
+
 class Fnref:
     def __init__(self, e):
         self.e = e
@@ -214,7 +222,7 @@ class Interp:
             return self.ch.choose(2) == 0
         if isinstance(v, Ptr):
             return v.rec is not None
-        if isinstance(v, It):
+        if isinstance(v, (It, PtrLV)):
             return True
         if v is None:
             self.broken(fn, e, 'condition without a value')
@@ -501,7 +509,7 @@ class Interp:
         if k == 'CXXThisExpr':
             val[i] = Ptr(this)
             return
-        if k in ('ParenExpr', 'ExprWithCleanups', 'MaterializeTemporaryExpr', 'CXXBindTemporaryExpr', 'CXXFunctionalCastExpr', 'ConstantExpr'):
+        if k in ('ParenExpr', 'ExprWithCleanups', 'MaterializeTemporaryExpr', 'CXXBindTemporaryExpr', 'CXXFunctionalCastExpr', 'ConstantExpr', 'SubstNonTypeTemplateParmExpr') and c:
             val[i] = V(c[0])
             return
         if k.endswith('CastExpr'):
@@ -542,7 +550,7 @@ class Interp:
                     self.broken(fn, e, 'a coordinate is converted to an integer')
                 val[i] = s if isinstance(s, (int, float)) else Op()
             elif ck == 'PointerToBoolean':
-                val[i] = (s.rec is not None) if isinstance(s, Ptr) else True
+                val[i] = (s.rec is not None) if isinstance(s, Ptr) else True      # It, PtrLV: non-null
             elif ck == 'NullToPointer':
                 val[i] = Ptr(None)
             else:
@@ -578,7 +586,11 @@ class Interp:
                 p = self.rv(s)
                 if isinstance(p, It):
                     val[i] = self.deref_it(p, fn, e)
+                elif isinstance(p, PtrLV):
+                    val[i] = p.lv
                 elif isinstance(p, Ptr):
+                    if p.rec is None:
+                        raise Violation('a null pointer is dereferenced', fn.loc(e))
                     val[i] = LV([p.rec], 0)
                 else:
                     self.broken(fn, e, 'dereference of a %s' % type(p).__name__)
@@ -615,6 +627,9 @@ class Interp:
                     return
                 if isinstance(s, LV) and s.it is not None and not isinstance(s.load(), Rec):
                     val[i] = It(s.it.vec, s.it.idx, s.it.gen)
+                    return
+                if isinstance(s, LV) and not isinstance(s.load(), Rec):
+                    val[i] = PtrLV(s)
                     return
                 if isinstance(s, LV) and isinstance(s.box, list) and isinstance(s.load(), Rec):
                     val[i] = Ptr(s.load())
